@@ -31,6 +31,9 @@ ASSUMPTIONS = ["the canonical form defines value equality: floats by repr, datet
 TIMEOUT = 600
 
 
+CALLS = []  # (function object as presented, args, kwargs, key) of the calls of the current case
+
+
 def cases(tier, seed):
     n = 60 if tier == "quick" else 2000
     for i in range(n):
@@ -316,9 +319,19 @@ def run_case(case):
         st = env.mem_backend() if case["idx"] % 4 else env.fs_backend(sc.path("store"))
         env.set_env(sc.path("env"), default_storage=st, clusters={"c": env.mem_backend()})
         seen = {}
+        del CALLS[:]
         for fam in range(case["families"]):
             sig = rng.choice(sigs)
             fn = getattr(mod, sig["name"])
+            if rng.random() < 0.3:
+                # a call the library refuses (a dictionary whose keys cannot be put in order) comes first: whatever it
+                # leaves behind must not reach the keys of the calls that follow
+                try:
+                    first_param = (sig["pos"] + sig["kwo"])[0][0]
+                    fn.fn_reference().with_args(**{first_param: {"b": 2, 1: "a"}}).arg_hash
+                    out["obs"]["out_of_domain_calls_accepted"] += 1
+                except Exception:
+                    out["obs"]["refused_calls_made_before_a_family"] += 1
             values = {}
             for n, has, d in sig["pos"] + sig["kwo"]:
                 if not has or rng.random() < 0.5:
@@ -335,6 +348,33 @@ def run_case(case):
                 ctx = {k: v for k, v in ctx.items() if not isinstance(v, FnVal)} or {"tenant": 1}
             fam_id = "%d/%d/%d" % (case["seed"], case["idx"], fam)
             check_family(out, fail, rng, sig, fn, values, [n for n in values if n not in extras], extras, ctx, fam_id, REC, seen)
+        # the keys of calls seen above, computed again by four threads at once (with frequent thread switches): every
+        # key must be the one computed alone
+        if CALLS:
+            import threading
+
+            sample = CALLS[:: max(1, len(CALLS) // 24)][:24]
+            wrong = []
+
+            def worker():
+                for _ in range(3):
+                    for g, args, kwargs, want in sample:
+                        got = g.fn_reference().with_args(*args, _memento_context_args=g.context.recursive.context_args, **kwargs).arg_hash
+                        if got != want:
+                            wrong.append((want, got))
+
+            old_interval = sys.getswitchinterval()
+            sys.setswitchinterval(1e-6)
+            try:
+                threads = [threading.Thread(target=worker) for _ in range(4)]
+                [t.start() for t in threads]
+                [t.join() for t in threads]
+            finally:
+                sys.setswitchinterval(old_interval)
+            out["obs"]["keys_computed_by_concurrent_threads"] += 12 * len(sample)
+            if wrong:
+                fail("arg_hash computed while other threads compute keys differs from the key computed alone",
+                     "%d of %d keys differ, e.g. alone %s, concurrently %s" % (len(wrong), 12 * len(sample), wrong[0][0], wrong[0][1]))
         sys.path.remove(sc.root)
         out["sample"] = {"signatures": render(sigs).split("\n")[3:9]}
     out["obs"] = dict(out["obs"])
@@ -367,6 +407,7 @@ def one_call(out, fail, sig, fn, pres, values, ctx, REC, label):
              "%s: %s: %s" % (label, describe_call(sig, pres, values, ctx), traceback.format_exc()[-700:]))
         return None
     out["obs"]["calls"] += 1
+    CALLS.append((g, args, kwargs, fwa.arg_hash))
     own = [e for e in events if e[0] == sig["name"]]
     return fwa.arg_hash, res, len(own), (own[0][1][0] if own else None)
 
